@@ -32,3 +32,30 @@ for cfg, prog in facts.load_many(list(facts.CONFIGS)).items():
             impls.setdefault("%s for %s" % (f.impl_trait, f.impl_self), set()).add(f.path.split("::")[-1])
 json.dump({k: sorted(v) for k, v in sorted(impls.items())}, open(os.path.join(os.path.dirname(os.path.abspath(__file__)), "sa", "ref_impls.json"), "w"), indent=0)
 print(len(impls), "trait impls")
+
+# branch-free bodies: normal forms per configuration ("*" when identical in every configuration that has the body)
+from sa.rules import summary as _summary
+summ = {}
+for cfg, prog in facts.load_many(list(facts.CONFIGS)).items():
+    for path, fs in prog.by_path.items():
+        if len(fs) != 1 or fs[0].derived or "closure" in path:
+            continue
+        f = fs[0]
+        if not _summary.straight(f):
+            continue
+        try:
+            s_ = _summary.summary(f)
+        except RecursionError:
+            continue
+        if len(s_) > 14:
+            continue
+        summ.setdefault(path, {})[cfg] = s_
+outs = {}
+for path, per in summ.items():
+    vals = list(per.values())
+    if all(v == vals[0] for v in vals):
+        outs[path] = {"*": vals[0], "in": sorted(per)}
+    else:
+        outs[path] = per
+json.dump(outs, open(os.path.join(os.path.dirname(os.path.abspath(__file__)), "sa", "ref_summaries.json"), "w"), indent=0, sort_keys=True)
+print(len(outs), "branch-free bodies,", sum(1 for v in outs.values() if "*" not in v), "configuration dependent")
